@@ -54,6 +54,8 @@ pub enum Op {
     Write { g: usize },
     IterNew { excl: bool },
     IterNext { it: usize },
+    /// `Iterator::nth(n)`: n items are borrowed and released on the way
+    IterNth { it: usize, n: usize },
     IterDrop { it: usize },
     /// `MetaTable::get` / `get_mut` on the reference behind guard g
     MetaGet { g: usize },
@@ -118,7 +120,7 @@ pub fn gen(seed: u64, prop: &str) -> Scen {
     for _ in 0..nops {
         let t = rng.below(ntasks as u64) as usize;
         let g = rng.below(4) as usize;
-        let op = match rng.below(if meta_heavy { 30 } else { 22 }) {
+        let op = match rng.below(if meta_heavy { 33 } else { 22 }) {
             0..=6 => Op::Acquire {
                 l: rng.below(n as u64) as usize,
                 excl: rng.chance(2, 5),
@@ -134,6 +136,7 @@ pub fn gen(seed: u64, prop: &str) -> Scen {
             19 | 24 | 25 | 26 => Op::IterNext { it: rng.below(2) as usize },
             20 => Op::IterDrop { it: rng.below(2) as usize },
             21 | 27 | 28 => Op::MetaGet { g },
+            30 | 31 | 32 => Op::IterNth { it: rng.below(2) as usize, n: 1 + rng.below(3) as usize },
             _ => Op::BadGet { g },
         };
         ops.push(TOp { t, op });
@@ -486,29 +489,40 @@ fn exec_op<'w>(sc: &Scen, w: &'w World, table: &'w MetaTable<dyn HObj>, bad: &'w
                 tc.iters.remove(i);
             }
         }
-        Op::IterNext { it } => {
+        Op::IterNext { it } | Op::IterNth { it, .. } => {
             if !tc.iters.is_empty() {
                 let i = it % tc.iters.len();
+                let nskip = match op {
+                    Op::IterNth { n, .. } => *n,
+                    _ => 0,
+                };
                 // what the reference list yields next: the next registered type that is present
                 // (dynamic id 0 only)
                 let excl = tc.iters[i].1.excl;
                 let mut pos = tc.iters[i].1.pos;
                 let mut target: Option<(usize, u8)> = None;
+                // items passed over by nth are borrowed and released on the way
+                let mut passed: Vec<usize> = Vec::new();
                 while pos < order.len() {
                     let ty = order[pos];
                     pos += 1;
                     if let Some(l) = sc.resmap.iter().position(|k| k.ty == ty && k.dynid == 0) {
                         if sh.res[l].present {
+                            if passed.len() < nskip {
+                                passed.push(l);
+                                continue;
+                            }
                             target = Some((l, ty));
                             break;
                         }
                     }
                 }
-                let conflict = target.map(|(l, _)| sh.res[l].excl || (excl && sh.res[l].shared > 0)).unwrap_or(false);
+                let busy = |l: usize| sh.res[l].excl || (excl && sh.res[l].shared > 0);
+                let conflict = passed.iter().any(|&l| busy(l)) || target.map(|(l, _)| busy(l)).unwrap_or(false);
                 drop(sh);
                 let r = catch_unwind(AssertUnwindSafe(|| match &mut tc.iters[i].0 {
-                    It::R(x) => x.next().map(|g| (g.htag(), g.haddr(), Box::new(GMetaR(g)) as Box<dyn Held<'w> + 'w>)),
-                    It::W(x) => x.next().map(|g| (g.htag(), g.haddr(), Box::new(GMetaW(g)) as Box<dyn Held<'w> + 'w>)),
+                    It::R(x) => (if nskip == 0 { x.next() } else { x.nth(nskip) }).map(|g| (g.htag(), g.haddr(), Box::new(GMetaR(g)) as Box<dyn Held<'w> + 'w>)),
+                    It::W(x) => (if nskip == 0 { x.next() } else { x.nth(nskip) }).map(|g| (g.htag(), g.haddr(), Box::new(GMetaW(g)) as Box<dyn Held<'w> + 'w>)),
                 }));
                 let mut sh = shm.lock().unwrap();
                 bump(&mut sh, if conflict { "meta_next_refused" } else if target.is_some() { "meta_next_item" } else { "meta_next_end" });
@@ -748,13 +762,16 @@ pub fn explore(prop: &str, seed: u64, thorough: bool, st: &mut Stats) -> Vec<Rep
         Stats::bump(&mut st.extra, "big_table_cases", 1);
         Stats::bump(&mut st.extra, "big_table_checks", checks);
         let distinct = {
-            let mut o: Vec<u8> = bs.reg.clone();
+            let mut o: Vec<u16> = bs.reg.clone();
             o.sort();
             o.dedup();
             o.len()
         };
         if distinct > 16 {
             Stats::bump(&mut st.probes, "table_with_more_than_16_types", 1);
+        }
+        if distinct > 256 {
+            Stats::bump(&mut st.probes, "table_with_more_than_256_types", 1);
         }
         let dg = crate::plan::fnv(serde_json::to_string(&bs).unwrap().as_bytes());
         crate::driver::chain(dg);
@@ -866,7 +883,7 @@ pub mod big {
     use std::any::Any;
 
     pub trait BObj {
-        fn btag2(&self) -> u8;
+        fn btag2(&self) -> u16;
         fn baddr(&self) -> usize;
         fn bump(&mut self);
     }
@@ -890,8 +907,8 @@ pub mod big {
         pub reg_bad: fn(&mut MetaTable<dyn BBad>),
         pub insert: fn(&mut World),
         /// None: absent; Some(None): `get` said None; Some(Some((tag, same address)))
-        pub get: fn(&MetaTable<dyn BObj>, &World) -> Option<Option<(u8, bool)>>,
-        pub get_mut: fn(&MetaTable<dyn BObj>, &World) -> Option<Option<(u8, bool)>>,
+        pub get: fn(&MetaTable<dyn BObj>, &World) -> Option<Option<(u16, bool)>>,
+        pub get_mut: fn(&MetaTable<dyn BObj>, &World) -> Option<Option<(u16, bool)>>,
         pub bad_get: fn(&MetaTable<dyn BBad>, &World) -> Option<bool>,
     }
 
@@ -900,7 +917,7 @@ pub mod big {
             #[derive(Default)]
             pub struct $name $($body)*
             impl BObj for $name {
-                fn btag2(&self) -> u8 { $tag }
+                fn btag2(&self) -> u16 { $tag }
                 fn baddr(&self) -> usize { self as *const $name as usize }
                 fn bump(&mut self) {}
             }
@@ -932,6 +949,28 @@ pub mod big {
     bigty!(M22, 22, { a: [u128; 3] });
     bigty!(M23, 23, { a: char });
     bigty!(MZ, 24, ;);
+
+    /// 300 more implementors (the table's index arithmetic must not care how many there are)
+    #[derive(Default)]
+    pub struct G<const N: u16> {
+        a: u32,
+    }
+    impl<const N: u16> BObj for G<N> {
+        fn btag2(&self) -> u16 {
+            25 + N
+        }
+        fn baddr(&self) -> usize {
+            self as *const Self as usize
+        }
+        fn bump(&mut self) {
+            self.a = self.a.wrapping_add(1);
+        }
+    }
+    impl<const N: u16> BBad for G<N> {
+        fn x(&self) -> u8 {
+            N as u8
+        }
+    }
 
     fn vt<T: BObj + BBad + Resource + Default + Any>() -> TyVt {
         TyVt {
@@ -972,16 +1011,34 @@ pub mod big {
         ]
     }
 
+    /// the 25 above plus 300 const-generic ones
+    pub fn table_huge() -> Vec<TyVt> {
+        let mut v = table();
+        v.extend(vec![vt::<G<0>>(), vt::<G<1>>(), vt::<G<2>>(), vt::<G<3>>(), vt::<G<4>>(), vt::<G<5>>(), vt::<G<6>>(), vt::<G<7>>(), vt::<G<8>>(), vt::<G<9>>(), vt::<G<10>>(), vt::<G<11>>(), vt::<G<12>>(), vt::<G<13>>(), vt::<G<14>>(), vt::<G<15>>(), vt::<G<16>>(), vt::<G<17>>(), vt::<G<18>>(), vt::<G<19>>(), vt::<G<20>>(), vt::<G<21>>(), vt::<G<22>>(), vt::<G<23>>(), vt::<G<24>>(), vt::<G<25>>(), vt::<G<26>>(), vt::<G<27>>(), vt::<G<28>>(), vt::<G<29>>(), vt::<G<30>>(), vt::<G<31>>(), vt::<G<32>>(), vt::<G<33>>(), vt::<G<34>>(), vt::<G<35>>(), vt::<G<36>>(), vt::<G<37>>(), vt::<G<38>>(), vt::<G<39>>(), vt::<G<40>>(), vt::<G<41>>(), vt::<G<42>>(), vt::<G<43>>(), vt::<G<44>>(), vt::<G<45>>(), vt::<G<46>>(), vt::<G<47>>(), vt::<G<48>>(), vt::<G<49>>(), vt::<G<50>>(), vt::<G<51>>(), vt::<G<52>>(), vt::<G<53>>(), vt::<G<54>>(), vt::<G<55>>(), vt::<G<56>>(), vt::<G<57>>(), vt::<G<58>>(), vt::<G<59>>(), vt::<G<60>>(), vt::<G<61>>(), vt::<G<62>>(), vt::<G<63>>(), vt::<G<64>>(), vt::<G<65>>(), vt::<G<66>>(), vt::<G<67>>(), vt::<G<68>>(), vt::<G<69>>(), vt::<G<70>>(), vt::<G<71>>(), vt::<G<72>>(), vt::<G<73>>(), vt::<G<74>>(), vt::<G<75>>(), vt::<G<76>>(), vt::<G<77>>(), vt::<G<78>>(), vt::<G<79>>(), vt::<G<80>>(), vt::<G<81>>(), vt::<G<82>>(), vt::<G<83>>(), vt::<G<84>>(), vt::<G<85>>(), vt::<G<86>>(), vt::<G<87>>(), vt::<G<88>>(), vt::<G<89>>(), vt::<G<90>>(), vt::<G<91>>(), vt::<G<92>>(), vt::<G<93>>(), vt::<G<94>>(), vt::<G<95>>(), vt::<G<96>>(), vt::<G<97>>(), vt::<G<98>>(), vt::<G<99>>(), vt::<G<100>>(), vt::<G<101>>(), vt::<G<102>>(), vt::<G<103>>(), vt::<G<104>>(), vt::<G<105>>(), vt::<G<106>>(), vt::<G<107>>(), vt::<G<108>>(), vt::<G<109>>(), vt::<G<110>>(), vt::<G<111>>(), vt::<G<112>>(), vt::<G<113>>(), vt::<G<114>>(), vt::<G<115>>(), vt::<G<116>>(), vt::<G<117>>(), vt::<G<118>>(), vt::<G<119>>(), vt::<G<120>>(), vt::<G<121>>(), vt::<G<122>>(), vt::<G<123>>(), vt::<G<124>>(), vt::<G<125>>(), vt::<G<126>>(), vt::<G<127>>(), vt::<G<128>>(), vt::<G<129>>(), vt::<G<130>>(), vt::<G<131>>(), vt::<G<132>>(), vt::<G<133>>(), vt::<G<134>>(), vt::<G<135>>(), vt::<G<136>>(), vt::<G<137>>(), vt::<G<138>>(), vt::<G<139>>(), vt::<G<140>>(), vt::<G<141>>(), vt::<G<142>>(), vt::<G<143>>(), vt::<G<144>>(), vt::<G<145>>(), vt::<G<146>>(), vt::<G<147>>(), vt::<G<148>>(), vt::<G<149>>(), vt::<G<150>>(), vt::<G<151>>(), vt::<G<152>>(), vt::<G<153>>(), vt::<G<154>>(), vt::<G<155>>(), vt::<G<156>>(), vt::<G<157>>(), vt::<G<158>>(), vt::<G<159>>(), vt::<G<160>>(), vt::<G<161>>(), vt::<G<162>>(), vt::<G<163>>(), vt::<G<164>>(), vt::<G<165>>(), vt::<G<166>>(), vt::<G<167>>(), vt::<G<168>>(), vt::<G<169>>(), vt::<G<170>>(), vt::<G<171>>(), vt::<G<172>>(), vt::<G<173>>(), vt::<G<174>>(), vt::<G<175>>(), vt::<G<176>>(), vt::<G<177>>(), vt::<G<178>>(), vt::<G<179>>(), vt::<G<180>>(), vt::<G<181>>(), vt::<G<182>>(), vt::<G<183>>(), vt::<G<184>>(), vt::<G<185>>(), vt::<G<186>>(), vt::<G<187>>(), vt::<G<188>>(), vt::<G<189>>(), vt::<G<190>>(), vt::<G<191>>(), vt::<G<192>>(), vt::<G<193>>(), vt::<G<194>>(), vt::<G<195>>(), vt::<G<196>>(), vt::<G<197>>(), vt::<G<198>>(), vt::<G<199>>(), vt::<G<200>>(), vt::<G<201>>(), vt::<G<202>>(), vt::<G<203>>(), vt::<G<204>>(), vt::<G<205>>(), vt::<G<206>>(), vt::<G<207>>(), vt::<G<208>>(), vt::<G<209>>(), vt::<G<210>>(), vt::<G<211>>(), vt::<G<212>>(), vt::<G<213>>(), vt::<G<214>>(), vt::<G<215>>(), vt::<G<216>>(), vt::<G<217>>(), vt::<G<218>>(), vt::<G<219>>(), vt::<G<220>>(), vt::<G<221>>(), vt::<G<222>>(), vt::<G<223>>(), vt::<G<224>>(), vt::<G<225>>(), vt::<G<226>>(), vt::<G<227>>(), vt::<G<228>>(), vt::<G<229>>(), vt::<G<230>>(), vt::<G<231>>(), vt::<G<232>>(), vt::<G<233>>(), vt::<G<234>>(), vt::<G<235>>(), vt::<G<236>>(), vt::<G<237>>(), vt::<G<238>>(), vt::<G<239>>(), vt::<G<240>>(), vt::<G<241>>(), vt::<G<242>>(), vt::<G<243>>(), vt::<G<244>>(), vt::<G<245>>(), vt::<G<246>>(), vt::<G<247>>(), vt::<G<248>>(), vt::<G<249>>(), vt::<G<250>>(), vt::<G<251>>(), vt::<G<252>>(), vt::<G<253>>(), vt::<G<254>>(), vt::<G<255>>(), vt::<G<256>>(), vt::<G<257>>(), vt::<G<258>>(), vt::<G<259>>(), vt::<G<260>>(), vt::<G<261>>(), vt::<G<262>>(), vt::<G<263>>(), vt::<G<264>>(), vt::<G<265>>(), vt::<G<266>>(), vt::<G<267>>(), vt::<G<268>>(), vt::<G<269>>(), vt::<G<270>>(), vt::<G<271>>(), vt::<G<272>>(), vt::<G<273>>(), vt::<G<274>>(), vt::<G<275>>(), vt::<G<276>>(), vt::<G<277>>(), vt::<G<278>>(), vt::<G<279>>(), vt::<G<280>>(), vt::<G<281>>(), vt::<G<282>>(), vt::<G<283>>(), vt::<G<284>>(), vt::<G<285>>(), vt::<G<286>>(), vt::<G<287>>(), vt::<G<288>>(), vt::<G<289>>(), vt::<G<290>>(), vt::<G<291>>(), vt::<G<292>>(), vt::<G<293>>(), vt::<G<294>>(), vt::<G<295>>(), vt::<G<296>>(), vt::<G<297>>(), vt::<G<298>>(), vt::<G<299>>()]);
+        v
+    }
+
     #[derive(Clone, Debug, Serialize, Deserialize, PartialEq)]
     pub struct BigScen {
-        pub reg: Vec<u8>,
+        pub reg: Vec<u16>,
         pub present: Vec<bool>,
+        /// positional consumption of the iterators: `skip(a).step_by(b)`
+        #[serde(default)]
+        pub skip: usize,
+        #[serde(default = "one")]
+        pub step: usize,
+    }
+
+    fn one() -> usize {
+        1
     }
 
     pub fn gen(seed: u64) -> BigScen {
         let mut rng = Rng::sub(seed, 27);
-        let n = 25;
-        let nreg = rng.below(60) as usize;
+        // one scenario in eight registers hundreds of types
+        let huge = rng.chance(1, 8);
+        let n = if huge { 325 } else { 25 };
+        let nreg = if huge { 200 + rng.below(500) as usize } else { rng.below(60) as usize };
         let mut reg = Vec::new();
         let wide = rng.chance(1, 2);
         for _ in 0..nreg {
@@ -989,14 +1046,14 @@ pub mod big {
                 let x = *rng.pick(&reg);
                 reg.push(x);
             } else {
-                reg.push(rng.below(if wide { n } else { 9 }) as u8);
+                reg.push(rng.below(if wide || huge { n } else { 9 }) as u16);
             }
         }
-        BigScen { reg, present: (0..n).map(|_| rng.chance(3, 4)).collect() }
+        BigScen { reg, present: (0..n).map(|_| rng.chance(3, 4)).collect(), skip: rng.below(4) as usize, step: 1 + rng.below(3) as usize }
     }
 
     pub fn run(sc: &BigScen) -> (Vec<Violation>, u64) {
-        let tys = table();
+        let tys = if sc.present.len() > 25 || sc.reg.iter().any(|&r| r >= 25) { table_huge() } else { table() };
         let mut out = Vec::new();
         let mut checks = 0u64;
         let mut t: MetaTable<dyn BObj> = MetaTable::new();
@@ -1008,10 +1065,10 @@ pub mod big {
             }
         }
         // registrations interleaved with queries: the reference list grows with them
-        let mut order: Vec<u8> = Vec::new();
-        let mut check_all = |t: &MetaTable<dyn BObj>, bad: &MetaTable<dyn BBad>, order: &[u8], when: usize, out: &mut Vec<Violation>| {
+        let mut order: Vec<u16> = Vec::new();
+        let mut check_all = |t: &MetaTable<dyn BObj>, bad: &MetaTable<dyn BBad>, order: &[u16], when: usize, out: &mut Vec<Violation>| {
             for (i, ty) in tys.iter().enumerate() {
-                let registered = order.contains(&(i as u8));
+                let registered = order.contains(&(i as u16));
                 for (which, f) in [("get", ty.get), ("get_mut", ty.get_mut)] {
                     checks += 1;
                     match catch_unwind(AssertUnwindSafe(|| f(t, &w))) {
@@ -1021,7 +1078,7 @@ pub mod big {
                             if r.is_some() != registered {
                                 out.push(vio("C17", "get-registration", format!("after {} registrations ({} distinct types): {} returned Some={} for type {}, registered={}", when, order.len(), which, r.is_some(), i, registered)));
                             } else if let Some((tag, same)) = r {
-                                if tag != i as u8 || !same {
+                                if tag != i as u16 || !same {
                                     out.push(vio("C17", "get-wrong-object", format!("after {} registrations: {} on a resource of type {} returned an object reporting type {} (same address: {})", when, which, i, tag, same)));
                                 }
                             }
@@ -1041,16 +1098,30 @@ pub mod big {
                     }
                 }
             }
-            let want: Vec<u8> = order.iter().copied().filter(|&x| sc.present.get(x as usize).copied().unwrap_or(false)).collect();
+            let want: Vec<u16> = order.iter().copied().filter(|&x| sc.present.get(x as usize).copied().unwrap_or(false)).collect();
             checks += 2;
-            match catch_unwind(AssertUnwindSafe(|| t.iter(&w).map(|o| o.btag2()).collect::<Vec<u8>>())) {
+            match catch_unwind(AssertUnwindSafe(|| t.iter(&w).map(|o| o.btag2()).collect::<Vec<u16>>())) {
                 Ok(got) if got == want => {}
                 Ok(got) => out.push(vio("C17", "iter-sequence", format!("after {} registrations: iter yields types {:?}, the reference list (first-registration order, once each, present only) {:?}", when, got, want))),
                 Err(p) => out.push(vio("C17", "iter-panicked", crate::util::payload_string(&p))),
             }
-            match catch_unwind(AssertUnwindSafe(|| t.iter_mut(&w).map(|mut o| { o.bump(); o.btag2() }).collect::<Vec<u8>>())) {
+            match catch_unwind(AssertUnwindSafe(|| t.iter_mut(&w).map(|mut o| { o.bump(); o.btag2() }).collect::<Vec<u16>>())) {
                 Ok(got) if got == want => {}
                 Ok(got) => out.push(vio("C17", "iter-sequence", format!("after {} registrations: iter_mut yields types {:?}, the reference list {:?}", when, got, want))),
+                Err(p) => out.push(vio("C17", "iter-panicked", crate::util::payload_string(&p))),
+            }
+            // positional consumption (skip / step_by are built on nth)
+            let step = sc.step.max(1);
+            let want2: Vec<u16> = want.iter().copied().skip(sc.skip).step_by(step).collect();
+            checks += 2;
+            match catch_unwind(AssertUnwindSafe(|| t.iter(&w).skip(sc.skip).step_by(step).map(|o| o.btag2()).collect::<Vec<u16>>())) {
+                Ok(got) if got == want2 => {}
+                Ok(got) => out.push(vio("C17", "iter-sequence", format!("after {} registrations: iter().skip({}).step_by({}) yields types {:?}, the reference list gives {:?}", when, sc.skip, step, got, want2))),
+                Err(p) => out.push(vio("C17", "iter-panicked", crate::util::payload_string(&p))),
+            }
+            match catch_unwind(AssertUnwindSafe(|| t.iter_mut(&w).skip(sc.skip).step_by(step).map(|o| o.btag2()).collect::<Vec<u16>>())) {
+                Ok(got) if got == want2 => {}
+                Ok(got) => out.push(vio("C17", "iter-sequence", format!("after {} registrations: iter_mut().skip({}).step_by({}) yields types {:?}, the reference list gives {:?}", when, sc.skip, step, got, want2))),
                 Err(p) => out.push(vio("C17", "iter-panicked", crate::util::payload_string(&p))),
             }
         };
@@ -1059,8 +1130,8 @@ pub mod big {
             let i = ty as usize % tys.len();
             (tys[i].reg)(&mut t);
             (tys[i].reg_bad)(&mut bad);
-            if !order.contains(&(i as u8)) {
-                order.push(i as u8);
+            if !order.contains(&(i as u16)) {
+                order.push(i as u16);
             }
             if (k + 1) % every == 0 && out.is_empty() {
                 check_all(&t, &bad, &order, k + 1, &mut out);
